@@ -453,12 +453,32 @@ Section Leaf.
          | _ => Ok true
          end.
 
+  (** the guards in front of the leaf conversion, under every validator: a ByteArray (like
+      every type that travels as text) must arrive as text (VALID_UNICODE_SOURCES), a
+      number (Integer, Double, Decimal: the subclasses of Decimal) as an int (bool is one), a
+      float or text (VALID_NUMBER_SOURCES); null passes.  Generated: are the guards there *)
+  Definition source_ok (k : lkind) (j : jv) : bool :=
+    match j with
+    | JNull => true
+    | _ =>
+        match k with
+        | KBytes =>
+            negb binary_source_checked
+            || match j with JStr _ | JBytes _ => true | _ => false end
+        | KInt _ | KDouble | KDecimal _ =>
+            negb number_source_checked
+            || match j with JInt _ | JFlt _ | JBool _ | JStr _ | JBytes _ => true | _ => false end
+        | KText | KBool => true
+        end
+    end.
+
   Definition leaf_dec (nillable : bool) (k : lkind) (j : jv) : out dval :=
     (* validator is SOFT_VALIDATION: self.validate(key, cls, inst) *)
     if c_soft c && negb (jv_is_null j && nillable)
        && (match k with KText => true | _ => false end)
        && negb (match j with JStr _ | JBytes _ => true | _ => false end)
     then VFault
+    else if negb (source_ok k j) then VFault
     else
       do j' <- text_of_bytes k j;
       if c_soft c && (match j' with JStr s => negb (validate_string k s) | _ => false end)
@@ -632,7 +652,7 @@ Section Struct.
     | Some (i, f) =>
         if dmulti f then
           match iter_doc (snd kv) with
-          | None => Crash TypeError
+          | None => if scalar_for_repeated_refused then VFault else Crash TypeError
           | Some items =>
               do xs <- mapM (rec (df_nillable f) (df_ty f)) items;
               let old := match nth i inst DNone with DList l => l | _ => [] end in
@@ -776,7 +796,7 @@ Definition out_cid (U : duniverse) : cid := S (length U).
 Inductive sres :=
 | SCall (args : list dval)       (* the user function was entered with these arguments *)
 | SBadCall (args : list dval)    (* entered with the wrong number of arguments: TypeError -> Server fault *)
-| SInvalid                       (* Client.ValidationError, function not entered *)
+| SInvalid                       (* Client.ValidationError or Client.MessagePackDecodeError, function not entered *)
 | SNotFound                      (* Client.ResourceNotFound *)
 | SCrash (e : exn).              (* a non-Fault exception escaped the protocol *)
 
@@ -805,7 +825,11 @@ Section Envelope.
         | JStr s => Ok (Some s, true, body)
         | JBytes b =>
             if key_bytes c then
-              match utf8_dec b with Some t => Ok (Some t, false, body) | None => Crash UnicodeError end
+              (* gen_method_request_string: an undecodable key is a MessagePackDecodeError *)
+              match utf8_dec b with
+              | Some t => Ok (Some t, false, body)
+              | None => if mp_envelope_errors_are_decode_errors then VFault else Crash UnicodeError
+              end
             else Ok (None, false, body)
         | _ => Ok (None, false, body)
         end
@@ -838,7 +862,11 @@ Section Envelope.
                source; repaired: it does), else the body is None; without ignore_wrappers the
                whole document is the wrapper document of the in_message *)
             let found := if key_bytes c && is_str && negb body_lookup_both_key_forms then JNull else body in
-            args_of s (d2o c U' fuel (DRef (in_cid U)) (if c_iw c then found else req))
+            (* a null body ({"method": null}): every argument is absent (generated from the
+               source), instead of _doc_to_object(None) = [] *)
+            if c_iw c && jv_is_null found && null_body_absent_args
+            then SCall (repeat DNone (length (sg_params s)))
+            else args_of s (d2o c U' fuel (DRef (in_cid U)) (if c_iw c then found else req))
         end
     end.
 
@@ -869,15 +897,16 @@ Section Envelope.
     end.
 
   Definition rpc_go (sigs : list dsig) (t name params : jv) : sres :=
-    (* msgname_or_error.decode(default_string_encoding) comes first *)
+    (* msgname_or_error.decode(default_string_encoding) comes first; an undecodable name, and
+       every message type but REQUEST (response, error, notification, unknown: formatted as
+       "%r" % (msgtype,)), is a Client.MessagePackDecodeError *)
     match (match name with
-           | JStr s => Ok (Some s)
-           | JBytes b => match utf8_dec b with Some n => Ok (Some n) | None => Crash UnicodeError end
-           | _ => Ok None
+           | JStr s => Some (Some s)
+           | JBytes b => match utf8_dec b with Some n => Some (Some n) | None => None end
+           | _ => Some None
            end) with
-    | Crash e => SCrash e
-    | VFault => SInvalid
-    | Ok on =>
+    | None => SInvalid
+    | Some on =>
         match num_of t with
         | Some 0 =>
             match on with
@@ -885,19 +914,14 @@ Section Envelope.
             | Some n =>
                 match find_sig sigs n with
                 | None => SNotFound
-                | Some s => args_of s (d2o c (ext_universe U s) fuel (DRef (in_cid U)) params)
+                | Some s =>
+                    (* [type, id, method, nil]: every argument is absent (generated) *)
+                    if jv_is_null params && rpc_nil_params_absent_args
+                    then SCall (repeat DNone (length (sg_params s)))
+                    else args_of s (d2o c (ext_universe U s) fuel (DRef (in_cid U)) params)
                 end
             end
-        | Some 1 => SCrash AssertionError      (* assert message == RESPONSE *)
-        | Some 2 => SCrash OtherExn            (* NotImplementedError *)
-        | _ =>
-            (* MessagePackDecodeError("Unknown message type %r" % msgtype): a tuple is taken as
-               the argument list of the format *)
-            match t with
-            | JList [_] => SInvalid
-            | JList _ => SCrash TypeError
-            | _ => SInvalid
-            end
+        | _ => SInvalid
         end
     end.
 
